@@ -515,6 +515,13 @@ func BulkAddRotatedSegmetas(finalSegmetas []*structs.SegMeta, shouldWriteSfm boo
 //
 // Returns the segbaseDirs for the segkeys that were removed
 func removeSegmetas(segkeysToRemove map[string]struct{}, indexName string) map[string]struct{} {
+	return removeSegmetasOfOrg(segkeysToRemove, indexName, nil)
+}
+
+// removeSegmetasOfOrg is removeSegmetas restricted, when removing by index name
+// and orgid is not nil, to the segments of that org: another org can have an
+// index of the same name.
+func removeSegmetasOfOrg(segkeysToRemove map[string]struct{}, indexName string, orgid *int64) map[string]struct{} {
 	if segkeysToRemove == nil && indexName == "" {
 		return nil
 	}
@@ -555,7 +562,7 @@ func removeSegmetas(segkeysToRemove map[string]struct{}, indexName string) map[s
 		}
 
 		if indexName != "" {
-			if segMetaData.VirtualTableName != indexName {
+			if segMetaData.VirtualTableName != indexName || (orgid != nil && segMetaData.OrgId != *orgid) {
 				preservedSmEntries = append(preservedSmEntries, &segMetaData)
 				continue
 			} else {
